@@ -324,6 +324,11 @@ func Main(t *testing.T) {
 		os.Exit(2)
 	}
 	debug.SetGCPercent(int(envU("VERIF_GCPERCENT", 200)))
+	if os.Getenv("VERIF_GCOFF") != "" {
+		// gc-mode harnesses: collections (and therefore finalizers) only happen at
+		// scheduler-chosen points; the memory limit stays as a safety net
+		debug.SetGCPercent(-1)
+	}
 	debug.SetMemoryLimit(int64(envU("VERIF_MEMLIMIT_MB", 4096)) << 20)
 	out := os.Getenv("VERIF_OUT")
 	if rp := os.Getenv("VERIF_REPLAY"); rp != "" {
